@@ -74,7 +74,7 @@ def gen_texts(ctx):
         if case['g'] != 'G2a' or (case['mbs'] is None and case['text'].count('"jsonrpc"') <= ctx.pick(2, 3)):
             yield dict(part='text', **case)
     for disp in ('sync', 'async'):
-        for n in range(0, ctx.pick(4, 5) + 1):
+        for n in range(0, (ctx.pick(5, 6) if disp == 'sync' else ctx.pick(4, 5)) + 1):
             for toks in itertools.product(c01.TOKENS, repeat=n):
                 yield dict(part='text', g='G1', disp=disp, mbs=None, text=''.join(toks))
 
@@ -195,7 +195,7 @@ def run(ctx):
                 'texts = C01 corpora (token strings <= %d, lexical edges, value-shaped objects, arrays) judged by the '
                 'strict JSON recogniser and the reference server. state = one (dispatcher, behaviour, placement) or '
                 '(dispatcher, text) point; non-trivial = anything but the plain parse error'
-                % (CODES, MESSAGES, DATA, len(EXCS), ctx.pick(4, 5)))
+                % (CODES, MESSAGES, DATA, len(EXCS), ctx.pick(5, 6)))
     ctx.assumptions += ['L4: message/data of library-generated errors unconstrained; L5 oversized integer literals',
                         'error classes registered by the harness use private codes (7001, -7002)']
     ctx.run_cases('C03', lambda: gen_cases(ctx), run_case, recheck_every=1013)
